@@ -143,9 +143,10 @@ def allKidsB (p : Storage α → Bool) : List (String × Tree α) → Bool
   | k :: ks => allB p k.2 && allKidsB p ks
 end
 
-/-- every parameter of every object of the tree is inside its declared domain -/
+/-- every registered parameter of the object and of every object it owns, directly or not, is inside its declared
+    domain -/
 def InDomain [LT α] [LE α] [IsFinite α] (t : Tree α) : Prop :=
-  ∀ path name s, t.param? path name = some s → s.InDomain
+  ∀ path n, t.sub? path = some n → n.config.InDomain
 
 variable [LT α] [LE α] [DecidableLT α] [DecidableLE α] [FOps α]
 
@@ -294,6 +295,11 @@ def ostep (lookup : String → String → Option (Tree α)) (env : Env α) : OOp
     match env[a]?, env[b]? with
     | some (ka, _), some (kb, _) => if ka == kb then (env, .probe) else (env, .bad)
     | _, _ => (env, .bad)
+
+/-- a history of operations: the variables afterwards -/
+def orun (lookup : String → String → Option (Tree α)) (env : Env α) : List (OOp α) → Env α
+  | [] => env
+  | op :: ops => orun lookup (ostep lookup env op).1 ops
 
 end
 
